@@ -354,6 +354,20 @@ class TotalGen:
     def binding(self):
         t = self.pick(["bool", "int", "uint", "string", "vobj", "int", "string"])
         r = self.rng.random()
+        if r < 0.15 and t in ("int", "uint", "string", "bool"):
+            # a pointer local re-pointed between two reads of the same property (both objects chosen dynamically, never null)
+            def sel():
+                return ("ternary", ("member", ("ident", self.pick(["a", "b", "sub"])), "b"), ("ident", self.pick(["a", "b"])), ("ident", self.pick(["a", "b"])))
+            op = {"int": "&", "uint": "+", "string": "+", "bool": "&&"}[t]
+            # the candidates are computed first, so that the two reads and the re-assignment in between sit in ONE basic block
+            body = [("decl", "let", [("p", None, sel())]), ("decl", "let", [("q", None, sel())]),
+                    ("decl", "let", [("w", None, ("ident", "p"))]), ("decl", "let", [("s", None, ("member", ("ident", "w"), PROP[t]))]),
+                    ("expr", ("assign", ("ident", "w"), ("ident", "q")))]
+            if self.rng.random() < 0.5:
+                body.append(("expr", ("assign", ("ident", "w"), ("member", ("ident", self.pick(["a", "b"])), "next"))))
+                body.append(("if", ("binary", "==", ("ident", "w"), ("null",)), ("block", [("return", ("ident", "s"))]), None))
+            body.append(("return", ("binary", op, ("ident", "s"), ("member", ("ident", "w"), PROP[t]))))
+            return ("binding_block", body), t
         if r < 0.6:
             return ("binding_expr", self.expr(t, 0)), t
         if r < 0.8:
